@@ -108,6 +108,13 @@ CLAIMED["C04"] = (
     "DESIGN.md section 5 / C04",
 )
 
+CLAIMED["C05"] = (
+    "online model-based monitor: seeded histories of the generated CRUD functions against a schema-enforcing in-memory database/sql driver loaded from the generated SQL script, compared call by call with a map model; statements and argument vectors recorded",
+    "The generated CRUD code (and union wrappers) are compiled into each synthesised model package; the in-memory driver takes its tables, types, CHECKs (incl. the JSON validators), UNIQUE and FOREIGN KEY constraints from the SQL generated for the same file and rejects what PostgreSQL would reject (unknown identifiers, placeholder/argument disagreement, uncoercible values, constraint violations). Seeded histories of insert/select/update/delete, by-foreign-key, by-unique, by-select-key, link-table insert / COPY / delete, map helpers and custom queries are checked online against a map model (with ON DELETE actions). Held on the histories produced.",
+    "PostgreSQL and lib/pq are modelled (harness/support/memdb, pgmodel, pqstub), not run; values stay inside the column types' ranges; operations respect the constraints.",
+    "DESIGN.md section 5 / C05",
+)
+
 NOT_YET = "check not built yet (work in progress, see DESIGN.md section 5 for the planned monitor)"
 NOT_APPLICABLE = {}
 
